@@ -377,3 +377,124 @@ Proof.
   rewrite Forall_forall in *. intros y Hy. apply Hd. apply in_map_iff in Hy as [d' [<- Hd']].
   apply in_map. apply filter_In in Hd'. tauto.
 Qed.
+
+(** ** PartitionByInstanceName *)
+Lemma NoDup_snoc {A} (l : list A) k : NoDup l -> ~ In k l -> NoDup (l ++ [k]).
+Proof.
+  induction 1 as [|x l Hx ND IH]; intro Hk; cbn [app].
+  - constructor; [intros []|constructor].
+  - constructor.
+    + intro K. apply in_app_or in K as [K|[<-|[]]]; [contradiction|]. apply Hk. left. reflexivity.
+    + apply IH. intro K. apply Hk. right. exact K.
+Qed.
+
+Section PartitionSpec.
+  Context {T K : Type}.
+  Variable keqb : K -> K -> bool.
+  Hypothesis keqb_eq : forall a b, keqb a b = true <-> a = b.
+  Variable key : T -> K.
+
+  (** keys in the order of their first occurrence *)
+  Definition fstep (acc : list K) (k : K) : list K := if existsb (keqb k) acc then acc else acc ++ [k].
+  Definition firsts (l : list K) : list K := fold_left fstep l [].
+  Definition part_of (s : list T) (k : K) : list T := filter (fun x => keqb (key x) k) s.
+
+  Lemma keqb_refl a : keqb a a = true.
+  Proof. apply keqb_eq. reflexivity. Qed.
+
+  Lemma existsb_keqb k l : existsb (keqb k) l = true <-> In k l.
+  Proof.
+    rewrite existsb_exists. split.
+    - intros [y [Hy E]]. apply keqb_eq in E. subst. exact Hy.
+    - intro H. exists k. split; [exact H|apply keqb_refl].
+  Qed.
+
+  Lemma add_to_map k x (F : K -> list T) r :
+    NoDup r ->
+    add_to keqb k x (map (fun k' => (k', F k')) r) =
+    if existsb (keqb k) r
+    then map (fun k' => (k', if keqb k k' then F k' ++ [x] else F k')) r
+    else map (fun k' => (k', F k')) r ++ [(k, [x])].
+  Proof.
+    induction r as [|k' r IH]; intro ND; [reflexivity|].
+    inversion ND as [|? ? Hn ND']; subst. cbn [map add_to existsb].
+    destruct (keqb k k') eqn:E.
+    - cbn [orb]. f_equal. apply keqb_eq in E. subst k'.
+      apply map_ext_in. intros k'' Hk. destruct (keqb k k'') eqn:E2; [|reflexivity].
+      apply keqb_eq in E2. subst. contradiction.
+    - cbn [orb]. rewrite IH by exact ND'. destruct (existsb (keqb k) r); reflexivity.
+  Qed.
+
+  Lemma part_of_snoc p x k' :
+    part_of (p ++ [x]) k' = if keqb (key x) k' then part_of p k' ++ [x] else part_of p k'.
+  Proof.
+    unfold part_of. rewrite filter_app. cbn [filter].
+    destruct (keqb (key x) k'); [reflexivity|apply app_nil_r].
+  Qed.
+
+  Lemma fstep_NoDup ks k : NoDup ks -> NoDup (fstep ks k).
+  Proof.
+    intro ND. unfold fstep. destruct (existsb (keqb k) ks) eqn:E; [exact ND|].
+    assert (~ In k ks) as Hn by (intro H; apply existsb_keqb in H; congruence).
+    apply NoDup_snoc; assumption.
+  Qed.
+
+  Lemma fold_add_to s : forall p ks,
+    NoDup ks -> (forall y, In y p -> In (key y) ks) ->
+    fold_left (fun parts x => add_to keqb (key x) x parts) s (map (fun k => (k, part_of p k)) ks) =
+    map (fun k => (k, part_of (p ++ s) k)) (fold_left fstep (map key s) ks).
+  Proof.
+    induction s as [|x s IH]; intros p ks ND Hcov.
+    - cbn. rewrite app_nil_r. reflexivity.
+    - cbn [fold_left map]. rewrite add_to_map by exact ND.
+      assert (Estep : (if existsb (keqb (key x)) ks
+                       then map (fun k' => (k', if keqb (key x) k' then part_of p k' ++ [x] else part_of p k')) ks
+                       else map (fun k' => (k', part_of p k')) ks ++ [(key x, [x])])
+                      = map (fun k => (k, part_of (p ++ [x]) k)) (fstep ks (key x))).
+      { unfold fstep. destruct (existsb (keqb (key x)) ks) eqn:E.
+        - apply map_ext. intro k'. rewrite part_of_snoc. reflexivity.
+        - rewrite map_app. cbn [map]. f_equal.
+          + apply map_ext_in. intros k' Hk. rewrite part_of_snoc.
+            destruct (keqb (key x) k') eqn:E2; [|reflexivity].
+            apply keqb_eq in E2. subst k'. apply existsb_keqb in Hk. congruence.
+          + rewrite part_of_snoc, keqb_refl. f_equal. f_equal.
+            unfold part_of. destruct (filter (fun x0 => keqb (key x0) (key x)) p) as [|y l] eqn:F; [reflexivity|].
+            assert (In y (filter (fun x0 => keqb (key x0) (key x)) p)) as Hy by (rewrite F; left; reflexivity).
+            apply filter_In in Hy as [Hy1 Hy2]. apply keqb_eq in Hy2.
+            specialize (Hcov y Hy1). rewrite Hy2 in Hcov. apply existsb_keqb in Hcov. congruence. }
+      rewrite Estep. rewrite IH.
+      + rewrite <- app_assoc. reflexivity.
+      + apply fstep_NoDup, ND.
+      + intros y Hy. apply in_app_or in Hy as [Hy|[<-|[]]].
+        * unfold fstep. destruct (existsb (keqb (key x)) ks); [apply Hcov, Hy|apply in_or_app; left; apply Hcov, Hy].
+        * unfold fstep. destruct (existsb (keqb (key x)) ks) eqn:E; [apply existsb_keqb, E|apply in_or_app; right; left; reflexivity].
+  Qed.
+
+  Theorem partition_by_spec s :
+    partition_by keqb key s = map (part_of s) (firsts (map key s)).
+  Proof.
+    unfold partition_by, firsts.
+    pose proof (fold_add_to s [] [] (NoDup_nil K) ltac:(intros y [])) as H. cbn [map app] in H.
+    rewrite H, map_map. reflexivity.
+  Qed.
+End PartitionSpec.
+
+(** on packed valid digests: one set per instance name, in the order of first occurrence,
+    each the sub-list (hence sorted) of the digests with that instance name *)
+Theorem partition_spec_proof (ds : list digest) :
+  Forall valid_digest ds ->
+  partition_by_instance_name (map pack ds) =
+  Ok (map (fun i => map pack (filter (fun d => beqb (d_inst d) i) ds)) (firsts beqb (map d_inst ds))).
+Proof.
+  intro V. unfold partition_by_instance_name.
+  assert (E : map_outcome get_instance_name (map pack ds) = Ok (map d_inst ds)).
+  { induction ds as [|d r IH]; [reflexivity|]. inversion V; subst. cbn [map map_outcome].
+    destruct (pack_unpack_accessors d H1) as [_ [_ [_ [-> _]]]]. cbn [bind]. rewrite IH by assumption. reflexivity. }
+  rewrite E. cbn [bind]. f_equal.
+  rewrite (partition_by_spec beqb beqb_eq snd).
+  assert (Ek : map snd (combine (map pack ds) (map d_inst ds)) = map d_inst ds).
+  { clear. induction ds as [|d r IH]; [reflexivity|]. cbn. rewrite IH. reflexivity. }
+  rewrite Ek, map_map. apply map_ext. intro i. unfold part_of.
+  clear. induction ds as [|d r IH]; [reflexivity|]. cbn [map combine filter snd].
+  destruct (beqb (d_inst d) i); cbn [map fst]; rewrite IH; reflexivity.
+Qed.
